@@ -256,7 +256,7 @@ def _nest_job(args):
     cells[(25, 0)] = text
     excel = repo.mem_excel([('S', cells)])
     try:
-        repo.with_timeout(NEST_LIMIT, repo.translate_entry, excel, Cell(0, 25, 0))
+        repo.with_timeout(NEST_LIMIT if d <= 6 else 15.0, repo.translate_entry, excel, Cell(0, 25, 0))
         return 'ok', '', round(time.time() - t0, 2)
     except BaseException as e:  # noqa
         if isinstance(e, (KeyboardInterrupt, SystemExit)):
